@@ -171,6 +171,9 @@ func (g *Gen) advance() Op {
 	default:
 		to = h + 1 + int64(g.R.Intn(40))
 	}
+	if g.Profile == "faults" && g.R.Chance(20) {
+		to = (h/600 + 1) * 600 // the penalty tick of node.EndBlock
+	}
 	if to <= h {
 		to = h + 1
 	}
@@ -325,9 +328,15 @@ func (g *Gen) didTx() Op {
 			}
 		}
 	}
+	local := []int{}
+	for _, a := range bound {
+		if a <= len(g.W.C.Accounts) {
+			local = append(local, a)
+		}
+	}
 	creator := r.Intn(len(g.W.C.Accounts))
-	if len(bound) > 0 && r.Chance(75) {
-		creator = bound[r.Intn(len(bound))] - 1
+	if len(local) > 0 && r.Chance(75) {
+		creator = local[r.Intn(len(local))] - 1
 	}
 	switch r.Intn(10) {
 	case 0, 1, 2, 3:
@@ -350,12 +359,14 @@ func (g *Gen) didTx() Op {
 			case 5:
 				op.AccountId = "eip155:1:0x" + fmt.Sprintf("%040x", r.U64())
 			}
+		} else if r.Chance(30) {
+			op.Eth = true
 		}
 		return op
 	case 4, 5:
 		op := Op{K: "payaddr", Creator: creator, Sid: sid, Acct: 1 + r.Intn(len(g.W.C.Accounts))}
-		if len(bound) > 0 && r.Chance(70) {
-			op.Acct = bound[r.Intn(len(bound))]
+		if len(local) > 0 && r.Chance(70) {
+			op.Acct = local[r.Intn(len(local))]
 		}
 		return op
 	case 6, 7:
@@ -408,6 +419,9 @@ func (g *Gen) tx() Op {
 	if g.Profile == "lifecycle" {
 		return g.lifecycleTx()
 	}
+	if g.Profile == "faults" && g.R.Chance(55) {
+		return g.faultTx()
+	}
 	if g.Profile == "reward" && g.R.Chance(70) {
 		r := g.R
 		n := g.Nodes[r.Intn(len(g.Nodes))]
@@ -458,8 +472,12 @@ func (g *Gen) tx() Op {
 				f := false
 				op.CidOk = &f
 			case 7:
-				op.Creator = 7 // hot key of node 1
+				op.Creator = 7 // hot key of node 1, claiming node 1 as its provider
 				op.Provider = 2
+				if r.Chance(60) {
+					// ... for a proposal whose owner named a different gateway
+					op.PropProvider = g.Nodes[1+r.Intn(len(g.Nodes)-1)] + 1
+				}
 			case 8:
 				op.PayDid = 12 + 1
 				op.Creator = 12
@@ -653,7 +671,7 @@ func (g *Gen) lifecycleTx() Op {
 	gw := g.Nodes[r.Intn(len(g.Nodes)-2)]
 	// 1. pending work first
 	for _, s := range li.shards {
-		if (s.Status == ordertypes.ShardWaiting || s.Status == ordertypes.ShardMigrating) && r.Chance(80) {
+		if (s.Status == ordertypes.ShardWaiting || s.Status == ordertypes.ShardMigrating) && r.Chance(65) {
 			sp := g.acctIndex(s.Sp)
 			oid := s.OrderId
 			// a migrating shard is listed by the order it was appended to
@@ -667,6 +685,17 @@ func (g *Gen) lifecycleTx() Op {
 			return Op{K: "complete", Creator: sp, Provider: sp + 1, OrderId: oid, Size: s.Size_}
 		}
 	}
+	// an update still in flight on a model that already has committed versions: sometimes cancel it
+	for _, ord := range li.orders {
+		if ord.Status != ordertypes.OrderCompleted && ord.Operation != 3 {
+			for _, m := range li.metas {
+				if m.DataId == ord.DataId && len(m.Commits) > 0 && r.Chance(35) {
+					cr := g.acctIndex(ord.Creator)
+					return Op{K: "cancel", Creator: cr, Provider: cr + 1, OrderId: ord.Id}
+				}
+			}
+		}
+	}
 	if len(li.metas) == 0 || (len(li.metas) < 3 && r.Chance(25)) {
 		owner := g.Owners[r.Intn(len(g.Owners))]
 		d := g.newDataId()
@@ -678,7 +707,12 @@ func (g *Gen) lifecycleTx() Op {
 	o := g.ownerIndexOfDid(m.Owner)
 	switch c := r.Intn(100); {
 	case c < 30:
-		return Op{K: "renew", Creator: gw, Provider: gw + 1, Signer: o + 1, Owner: o + 1, Duration: []uint64{3600, 3600, 7200, 14400, 4000}[r.Intn(5)], Timeout: 100, Data: []string{m.DataId}}
+		rop := Op{K: "renew", Creator: gw, Provider: gw + 1, Signer: o + 1, Owner: o + 1, Duration: []uint64{3600, 3600, 7200, 14400, 4000}[r.Intn(5)], Timeout: 100, Data: []string{m.DataId}}
+		for k := 0; k < r.Intn(3); k++ {
+			// more ids in the same signed request, possibly models of other owners
+			rop.Data = append(rop.Data, li.metas[r.Intn(len(li.metas))].DataId)
+		}
+		return rop
 	case c < 42:
 		sp := g.Nodes[r.Intn(len(g.Nodes))]
 		for _, s := range li.shards {
@@ -709,6 +743,96 @@ func (g *Gen) lifecycleTx() Op {
 	default:
 		return Op{K: "addv", Creator: g.Nodes[r.Intn(len(g.Nodes))], Size: uint64(r.Intn(5_000_000))}
 	}
+}
+
+// faultTx files, confirms and clears fault reports: fishmen (accounts 1, 2), ordinary nodes and
+// non-nodes; matching and mismatching order / data / shard / commit ids; expired shards; duplicates.
+func (g *Gen) faultTx() Op {
+	li := g.live()
+	r := g.R
+	reporter := []int{1, 2, 1, 2, 3, 11}[r.Intn(6)]
+	var fs []FaultIn
+	var prov int
+	for k := 0; k < 1+r.Intn(2); k++ {
+		if len(li.shards) == 0 {
+			break
+		}
+		s := li.shards[r.Intn(len(li.shards))]
+		var ord *ordertypes.Order
+		for i := range li.orders {
+			for _, id := range li.orders[i].Shards {
+				if id == s.Id {
+					ord = &li.orders[i]
+				}
+			}
+		}
+		if ord == nil {
+			continue
+		}
+		prov = g.acctIndex(s.Sp) + 1
+		f := FaultIn{DataId: ord.DataId, OrderId: ord.Id, ShardId: s.Id, CommitId: "no-such-commit", Provider: prov}
+		switch r.Intn(10) {
+		case 0:
+			f.CommitId = ord.Commit // report: skipped (contains); recover: required
+		case 1:
+			f.ShardId = s.Id + 1
+		case 2:
+			f.DataId = "ffffffff-0000-4000-8000-000000000000"
+		case 3:
+			f.OrderId = ord.Id + 1
+		case 4:
+			f.Provider = 1 + r.Intn(6)
+		case 5:
+			f.CommitId = ""
+		case 6:
+			// a live shard the same provider holds for a *different* order
+			for _, s2 := range li.shards {
+				if s2.Sp == s.Sp && s2.Id != s.Id {
+					f.ShardId = s2.Id
+				}
+			}
+		}
+		fs = append(fs, f)
+	}
+	if len(fs) == 0 {
+		return Op{K: "claim", Creator: reporter}
+	}
+	if r.Chance(45) {
+		// recovery: by the accused provider itself or by a fishman, usually with the matching commit id
+		who := reporter
+		if r.Chance(50) {
+			who = prov - 1
+		}
+		// prefer a shard that really has an open fault
+		ctx := g.W.C.Ctx()
+		for _, s := range li.shards {
+			if f, found := g.W.C.App.NodeKeeper.GetFaultBySpAndShardId(ctx, s.Sp, s.Id); found && r.Chance(70) {
+				prov = g.acctIndex(s.Sp) + 1
+				fs = []FaultIn{{DataId: f.DataId, OrderId: f.OrderId, ShardId: f.ShardId, CommitId: "x", Provider: prov}}
+				if f.Status == 3 {
+					who = []int{1, 2}[r.Intn(2)]
+				} else if r.Chance(70) {
+					who = prov - 1
+				}
+				break
+			}
+		}
+		for i := range fs {
+			if r.Chance(80) {
+				for _, o := range li.orders {
+					if o.Id == fs[i].OrderId {
+						fs[i].CommitId = o.Commit
+					}
+				}
+			}
+		}
+		return Op{K: "recover", Creator: who, Provider: prov, Faults: fs}
+	}
+	op := Op{K: "report", Creator: reporter, Provider: prov, Faults: fs}
+	if r.Chance(10) {
+		op.Provider = 1 + r.Intn(6)
+	}
+	return op
 }
 
 // remvAll withdraws exactly the free capacity of a provider (boundary of the rounding rules).
